@@ -420,7 +420,7 @@ func (e *Engine) writeReplay(prop string, res *FuncResult, g *Goal, o runOpts) r
 		if ok {
 			rp["witness"] = w
 			out, conf := e.runWitness(w, g)
-			if !conf && g.Kind != "safety" && strings.Contains(out, "GVC-DONE") {
+			if !conf && g.Kind == "post" && strings.Contains(out, "GVC-DONE") {
 				var why string
 				conf, why = e.confirmPost(res, g, w, out, o)
 				rp["confirmation"] = why
